@@ -687,7 +687,7 @@ pub fn run_point(root: &Path, p: &Point) -> PointResult {
             for i in 0..p.readers.len() {
                 if base + i > fl {
                     let prefix = format!("{}/{}/", root_s, level_name(i));
-                    if let Some(e) = ev.iter().find(|e| e.path.starts_with(&prefix) && (e.call == "open" || e.call == "stat")) {
+                    if let Some(e) = ev.iter().find(|e| e.path.starts_with(&prefix) && matches!(e.call, "open" | "stat" | "utimensat" | "chmod" | "unlink" | "rename" | "link")) {
                         add("C14", "c14:consulted-without-checker", format!("no checker configured but a later level was consulted after the first hit: {} at {}", e.short(), desc));
                         break;
                     }
